@@ -235,14 +235,14 @@ def fromOn (t : String) : Nat → Option Runner.WStatus :=
   | k :: st :: [] => fun i => if k.toNat?.getD 0 ≤ i then some (wstatusOf st) else none
   | _ => fun _ => none
 
-def runnerRun (fuel : Nat) (sig nat aterm akill : String) : String :=
-  let sg : Nat → Option Runner.Sig := match sig.splitOn ":" with
+def runnerRun (fuel : Nat) (sig nat aterm akill late : String) : String :=
+  let at1 : String → Nat → Option Runner.Sig := fun t => match t.splitOn ":" with
     | k :: s :: [] => fun i => if i = k.toNat?.getD 0 then some (if s == "alrm" then .alrm else .term) else none
     | _ => fun _ => none
-  let e : Runner.Env := ⟨sg, fromOn nat, fromOn aterm, fromOn akill⟩
+  let e : Runner.Env := { sig := at1 sig, natural := fromOn nat, afterTerm := fromOn aterm, afterKill := fromOn akill, late := at1 late }
   let r := Runner.run e fuel
   let acts := r.1.map fun a => match a with
-    | .killTerm => "term" | .killKill => "kill" | .reap _ => "reap" | .giveUp => "giveup" | .running => "running"
+    | .killTerm => "term" | .killTermLate => "termlate" | .killKill => "kill" | .reap _ => "reap" | .giveUp => "giveup" | .running => "running"
   s!"{r.2} " ++ ",".intercalate acts
 
 def confRun (ws : List String) : String :=
@@ -410,7 +410,8 @@ def handle (ws : List String) : String :=
     vecRun ⟨stride.toNat?.getD 8, hdr.toNat?.getD 56⟩ (init.toNat?.getD 0) (listOf ops)
   | "buf" :: init :: ops :: [] => bufRun (init.toNat?.getD 0) (listOf ops)
   | "conf" :: rest => confRun rest
-  | "runner" :: fuel :: sig :: nat :: aterm :: akill :: [] => runnerRun (fuel.toNat?.getD 0) sig nat aterm akill
+  | "runner" :: fuel :: sig :: nat :: aterm :: akill :: [] => runnerRun (fuel.toNat?.getD 0) sig nat aterm akill "-"
+  | "runner" :: fuel :: sig :: nat :: aterm :: akill :: late :: [] => runnerRun (fuel.toNat?.getD 0) sig nat aterm akill late
   | "rhtml" :: order :: invs => rhtmlRun (natList order) (invs.filterMap rhtmlInv)
   | "arena" :: hdr :: fsz :: pz :: csz :: ops :: [] =>
     let n := fun (x : String) => x.toNat?.getD 0
